@@ -1,8 +1,11 @@
 import BeyondVerif.Model.CcsdsExt
 /-!
-Kernel-checked counter-witnesses for the clauses the current writers falsify (open findings in known_findings.d/C13.json).
-Each is stated under the value the regenerated flag has *now*; when the library is fixed the flag flips, the hypothesis
-becomes false and the positive theorem of Props/C13Ext.lean applies instead (both keep building).
+Kernel-checked instances for the clauses about dates, forms and Keplerian maneuvers (`Model/CcsdsExt.lean`).
+
+History.  Until /repo aa1842c (time scales) and 1daca9c (OEM XML form) `mixed_scale_moves_instant` and `oem_xml_noncartesian_form`
+were counter-witnesses; the fixes are in, the regenerated flags flipped, and the same inputs are now regression witnesses
+(`…_ok`): if a fix is reverted the flags flip back and they stop building.  Still a counter-witness:
+`opm_keplerian_maneuver_lost` (open finding C13-opm-keplerian-maneuver), stated under the value its flag has now.
 -/
 namespace BeyondVerif.C13W
 open BeyondVerif.CcsdsExt BeyondVerif.Generated
@@ -10,19 +13,25 @@ open BeyondVerif.CcsdsExt BeyondVerif.Generated
 /-- TT − TAI = 32.184 s, GPS − TAI = −19 s; TAI, UTC, UT1 read alike when no leap-second table is loaded -/
 def off0 (s : String) : Int := if s = "TT" then 32184000 else if s = "TDB" then 32184000 else if s = "GPS" then -19000000 else 0
 
-/-- (open: C13-mixed-scale-epoch-opm-maneuver / -oem-point / -tdm-observation) a date labelled TT inside a message whose
-TIME_SYSTEM is UTC is printed as its TT reading and read back as UTC: the instant moves by 32.184 s.  Same for an OPM maneuver,
-an OEM point (and its covariance epoch) and a TDM observation — all three writers print the date's own clock. -/
-theorem mixed_scale_moves_instant :
-    (opmManScaleConv = false → instant off0 (readBack "UTC" (written opmManScaleConv off0 "UTC" ⟨0, "TT"⟩)) - instant off0 ⟨0, "TT"⟩ = 32184000) ∧
-    (oemPointScaleConv = false → instant off0 (readBack "UTC" (written oemPointScaleConv off0 "UTC" ⟨0, "TT"⟩)) - instant off0 ⟨0, "TT"⟩ = 32184000) ∧
-    (tdmObsScaleConv = false → instant off0 (readBack "UTC" (written tdmObsScaleConv off0 "UTC" ⟨0, "GPS"⟩)) - instant off0 ⟨0, "GPS"⟩ = -19000000) := by
+/-- (was open: C13-mixed-scale-epoch-*, fixed aa1842c) a date labelled TT (GPS) inside a message whose TIME_SYSTEM is UTC comes back
+as the same instant labelled UTC — OPM maneuver, OEM point (and its covariance epoch), TDM observation … -/
+theorem mixed_scale_instant_ok :
+    instant off0 (readBack "UTC" (written opmManScaleConv off0 "UTC" ⟨0, "TT"⟩)) = instant off0 ⟨0, "TT"⟩ ∧
+    instant off0 (readBack "UTC" (written oemPointScaleConv off0 "UTC" ⟨0, "TT"⟩)) = instant off0 ⟨0, "TT"⟩ ∧
+    instant off0 (readBack "UTC" (written tdmObsScaleConv off0 "UTC" ⟨0, "GPS"⟩)) = instant off0 ⟨0, "GPS"⟩ ∧
+    readBack "UTC" (written opmManScaleConv off0 "UTC" ⟨0, "TT"⟩) = ⟨-32184000, "UTC"⟩ := by
   decide
 
-/-- (open: C13-oem-xml-dump-noncartesian-form) an ephemeris whose points are kept in Keplerian (spherical, …) form is written in
-KVN but not in XML -/
-theorem oem_xml_noncartesian_form :
-    oemDumpForm "kvn" "keplerian" = true ∧ (oemXmlConvertsForm = false → oemDumpForm "xml" "keplerian" = false) ∧ oemDumpForm "xml" "cartesian" = true := by
+/-- … whereas a writer that prints the date's own clock (the code before aa1842c) moves it by 32.184 s (−19 s) -/
+theorem mixed_scale_moves_instant :
+    instant off0 (readBack "UTC" (written false off0 "UTC" ⟨0, "TT"⟩)) - instant off0 ⟨0, "TT"⟩ = 32184000 ∧
+    instant off0 (readBack "UTC" (written false off0 "UTC" ⟨0, "GPS"⟩)) - instant off0 ⟨0, "GPS"⟩ = -19000000 := by
+  decide
+
+/-- (was open: C13-oem-xml-dump-noncartesian-form, fixed 1daca9c) an ephemeris whose points are kept in Keplerian (spherical, …)
+form is written in KVN and in XML -/
+theorem oem_xml_noncartesian_form_ok :
+    oemDumpForm "kvn" "keplerian" = true ∧ oemDumpForm "xml" "keplerian" = true ∧ oemDumpForm "xml" "spherical" = true ∧ oemDumpForm "xml" "cartesian" = true := by
   decide
 
 /-- (open: C13-opm-keplerian-maneuver) a Keplerian impulsive maneuver makes the OPM writers fail, a Keplerian continuous one is
